@@ -89,19 +89,21 @@ var plans = map[string]Plan{
 	},
 	"C12": {
 		Level: "exploration",
-		Rule: "cases: (a) envelopes (name 1..2^16 bytes incl. non-UTF-8 and ':'-multiplexed, type 0..127, seqid at int32 boundaries, random struct body) under a drawn segmentation; (b) requests in the three framings with matching / wrong message type, two drawn segmentations (often with a 1-byte first read) and a reply to send back; (c) arbitrary / truncated / header-scrambled / body-mutated request bytes; (d) a complete grid of first-read sizes. " +
-			"Oracle: writers == reference envelope bytes; readers invert; DecodeRequest and ReadRequest classify as sent, agree with each other, ReadRequest is segmentation-independent and accepts whatever DecodeRequest accepts; replies parse (reference decoder) as the request's framing with echoed name/seqid. " +
-			"Non-trivial: non-empty body, or wrong-type envelope, or (for byte cases) accepted by at least one API. Distinct: SHA-256 of the request/envelope bytes (+expected type).",
+		Rule: "cases: (a) envelopes (name 1..2^16 bytes incl. non-UTF-8 and ':'-multiplexed, type 0..127, seqid at int32 boundaries, random struct body) under a drawn segmentation; (b) requests in the three framings with matching / wrong message type, two drawn segmentations (often with a 1-byte first read) and a reply to send back; (c) arbitrary / truncated / header-scrambled / body-mutated request bytes; (d) a complete grid of first-read sizes; (e) histories of 1..6 requests served through the one shared protocol object, each step drawing its API (DecodeRequest, ReadRequest, Protocol.Reader + ReadEnvelopeBegin), framing, seekable / non-seekable segmentation and a handler that knows a drawn subset of the body's field ids and skips (stream.Reader.Skip) the others; (f) internal/envelope server and client, alone or behind 1..3 stacked multiplexers (levels often sharing the service name), with method names that contain ':', equal the service name or start with \"<service>:\". " +
+			"Oracle: writers == reference envelope bytes; readers invert; DecodeRequest and ReadRequest classify as sent, agree with each other, ReadRequest is segmentation-independent and accepts whatever DecodeRequest accepts; replies parse (reference decoder) as the request's framing with echoed name/seqid; every step of a history gives the outcome of the stateless model (known fields of the body, framing, echo) whatever was served before it; the multiplexed client's request carries one \"<service>:\" prefix per level and the service's handler receives exactly the method name the client was given. " +
+			"Non-trivial: non-empty body, or wrong-type envelope, or (for byte cases) accepted by at least one API, or (histories) >= 2 steps with at least one skipped field. Distinct: SHA-256 of the request/envelope bytes (+expected type).",
 		Assumptions: []string{
 			"internal/refcodec envelope/legacy-envelope layout is a correct reading of the Thrift spec",
 			"'accepts' for DecodeRequest includes forcing the lazily decoded body",
 			"internal/envelope, internal/multiplex are reached through the verif-tagged re-export package go.uber.org/thriftrw/verifhook",
+			"a request handler that reads the fields it knows and calls Skip on the others (what generated Decode methods do) must obtain exactly those fields; service names contain no ':' (the multiplex handler splits at the first one)",
 		},
 		Units: []Unit{
 			{Name: "envelope", Pkg: "./checks/c12", Run: "^TestEnvelopeRoundTrip$", Rapid: true, Shards: [2]int{4, 8}, Checks: [2]int{3000, 40000}},
 			{Name: "request", Pkg: "./checks/c12", Run: "^TestRequests$", Rapid: true, Shards: [2]int{6, 12}, Checks: [2]int{3000, 30000}},
 			{Name: "request-bytes", Pkg: "./checks/c12", Run: "^TestRequestBytes$", Rapid: true, Shards: [2]int{4, 12}, Checks: [2]int{4000, 30000}},
 			{Name: "first-read-grid", Pkg: "./checks/c12", Run: "^TestFirstReadGrid$", Shards: [2]int{1, 1}},
+			{Name: "request-history", Pkg: "./checks/c12", Run: "^TestRequestHistory$", Rapid: true, Shards: [2]int{4, 12}, Checks: [2]int{1500, 12000}},
 			{Name: "server-client", Pkg: "./checks/c12", Run: "^TestServerClient$", Rapid: true, Shards: [2]int{2, 8}, Checks: [2]int{3000, 25000}},
 		},
 	},
